@@ -404,7 +404,34 @@ func (ex *Exec) applyContractVals(fr *Frame, in ssa.Instruction, ct *Contract, c
 	short := shortName(calleeName)
 	// ghost parameters at call sites are existential: unsupported here
 	if len(ct.Ghost) > 0 {
-		panic(abortPath{"call of function with ghost parameters: " + calleeName})
+		// the caller's contract names the witnesses (`call callee: ghost = expr`), evaluated over the
+		// caller's parameters
+		var wit map[string]*Node
+		if rct := ex.eng.contractFor(ex.root); rct != nil {
+			wit = rct.CallGhosts[short]
+			if wit == nil {
+				wit = rct.CallGhosts[fnNameOnly(short)]
+			}
+		}
+		if wit == nil {
+			panic(abortPath{"call of function with ghost parameters without a `call` clause in the caller's contract: " + calleeName})
+		}
+		cenv := &SpecEnv{ex: ex, vars: map[string]TV{}, st: st, pkg: ex.root.Pkg.Pkg, mode: "prove"}
+		for k, v := range ex.rootVars {
+			cenv.vars[k] = v
+		}
+		for _, g := range ct.Ghost {
+			n := wit[g.Name]
+			if n == nil {
+				panic(abortPath{"no witness for ghost parameter " + g.Name + " of " + calleeName})
+			}
+			v := cenv.eval(n)
+			t := env.typeFromString(g.Type)
+			if v.U != nil && t != nil {
+				v = cenv.coerce(v, t)
+			}
+			env.vars[g.Name] = v
+		}
 	}
 	ex.evalLets(ct, env)
 	for _, r := range ct.Requires {
@@ -452,6 +479,9 @@ func (ex *Exec) applyContractVals(fr *Frame, in ssa.Instruction, ct *Contract, c
 	for _, l := range ct.Lets {
 		env2.vars[l.Label] = env.vars[l.Label]
 	}
+	for _, g := range ct.Ghost {
+		env2.vars[g.Name] = env.vars[g.Name]
+	}
 	for _, c := range ct.Ensures {
 		g, err := env2.EvalBool(c.Expr)
 		if err != nil {
@@ -484,6 +514,13 @@ func (ex *Exec) evalLets(ct *Contract, env *SpecEnv) {
 			env.vars[l.Label] = env.eval(l.Expr)
 		}()
 	}
+}
+
+func fnNameOnly(s string) string {
+	if i := strings.LastIndex(s, "."); i >= 0 {
+		return s[i+1:]
+	}
+	return s
 }
 
 func shortName(s string) string {
